@@ -64,7 +64,9 @@ Contexts == {"if", "while", "listidx", "stridx", "objidx", "rangestart", "rangee
              "whilelater", "whilecontinue", "elseif", "emptyobjdecl", "emptyobjassign", "emptyobjparam",
              "emptyobjnested", "emptyobjfor", "emptylistdecl", "emptylistassign", "emptylistparam",
              "emptylistnested", "idxassignidx", "objassignkey", "opassignidx", "rangeassignstart",
-             "rangeassignend", "destructkey", "restobj", "restlist"}
+             "rangeassignend", "destructkey", "restobj", "restlist",
+             \* the other bound / index of the same construct is out of range
+             "rangeassignendfar", "rangeassignstartfar", "ridxendfar", "ridxstartfar", "rangeendrev"}
 
 L12 == EList(<<EInt(1), EInt(2)>>)
 W1 == <<119, 49>>
@@ -124,6 +126,13 @@ CtxProg(cx, i) ==
                                       SPrint(EVar(Xs))>>
       [] cx = "rangeassignend" -> <<SDecl(EVar(Xs), L12), SAssign(ERIndex(EVar(Xs), ENone, EVar(A)), EList(<<EInt(7), EInt(8)>>)),
                                     SPrint(EVar(Xs))>>
+      [] cx = "rangeassignendfar" -> <<SDecl(EVar(Xs), L12), SAssign(ERIndex(EVar(Xs), EInt(5), EVar(A)), EList(<<EInt(7)>>)),
+                                       SPrint(EVar(Xs))>>
+      [] cx = "rangeassignstartfar" -> <<SDecl(EVar(Xs), L12), SAssign(ERIndex(EVar(Xs), EVar(A), EInt(9)), EList(<<EInt(7)>>)),
+                                         SPrint(EVar(Xs))>>
+      [] cx = "ridxendfar"     -> <<SPrint(ERIndex(L12, EInt(5), EVar(A)))>>
+      [] cx = "ridxstartfar"   -> <<SPrint(ERIndex(L12, EVar(A), EInt(9)))>>
+      [] cx = "rangeendrev"    -> <<SPrint(ERange(EInt(5), EVar(A))), SPrint(ERange(EVar(A), EInt(-5)))>>
       [] cx = "destructkey"    -> <<SDecl(EObj(<<Pair(EVar(A), EVar(<<117>>))>>), EObj(<<Pair(EStr(<<115>>), EInt(1))>>)),
                                     SPrint(EVar(<<117>>))>>
       [] cx = "restobj"        -> <<SDecl(EObj(<<PCollect(EVar(<<117>>))>>), EVar(A)), SPrint(EVar(<<117>>))>>
@@ -134,13 +143,22 @@ EqNest(op, i, j, how) ==
     Prelude \o
     CASE how = "list" -> <<SPrint(EBin(op, EList(<<EInt(1), Ex(i)>>), EList(<<EInt(1), Ex(j)>>)))>>
       [] how = "obj"  -> <<SPrint(EBin(op, EObj(<<Pair(EStr(<<107>>), Ex(i))>>), EObj(<<Pair(EStr(<<107>>), Ex(j))>>)))>>
+      \* the same container twice on one side (an equality routine that remembers what it has seen)
+      [] how = "sharedl" -> <<SDecl(EVar(A), EList(<<Ex(i)>>)),
+                              SPrint(EBin(op, EList(<<EVar(A), EVar(A)>>), EList(<<EList(<<Ex(i)>>), EList(<<Ex(j)>>)>>)))>>
+      [] how = "sharedr" -> <<SDecl(EVar(A), EList(<<Ex(j)>>)),
+                              SPrint(EBin(op, EList(<<EList(<<Ex(j)>>), EList(<<Ex(i)>>)>>), EList(<<EVar(A), EVar(A)>>)))>>
+      [] how = "sharedo" -> <<SDecl(EVar(A), EObj(<<Pair(EStr(<<107>>), Ex(i))>>)),
+                              SPrint(EBin(op, EObj(<<Pair(EStr(<<97>>), EVar(A)), Pair(EStr(<<98>>), EVar(A))>>),
+                                              EObj(<<Pair(EStr(<<97>>), EObj(<<Pair(EStr(<<107>>), Ex(i))>>)),
+                                                     Pair(EStr(<<98>>), EObj(<<Pair(EStr(<<107>>), Ex(j))>>))>>)))>>
       [] how = "deep" -> <<SDecl(EVar(A), EList(<<EObj(<<Pair(EStr(<<107>>), EList(<<Ex(i)>>))>>)>>)),
                            SDecl(EVar(Bn), EList(<<EObj(<<Pair(EStr(<<107>>), EList(<<Ex(j)>>))>>)>>)),
                            SPrint(EBin(op, EVar(A), EVar(Bn)))>>
 
 \* parameter tuples <<family, op-or-context, i, j, form>>
 C16Params ==
-    { <<"eqnest", op, i, j, how>> : op \in {"==", "!="}, i \in KIdx, j \in KIdx, how \in {"list", "obj", "deep"} }
+    { <<"eqnest", op, i, j, how>> : op \in {"==", "!="}, i \in KIdx, j \in KIdx, how \in {"list", "obj", "deep", "sharedl", "sharedr", "sharedo"} }
     \cup
     { <<"op", OpList[o], i, j, "plain">> : o \in 1 .. Len(OpList), i \in KIdx, j \in KIdx }
     \cup { <<"op", op, i, j, form>> : op \in AssignOps, i \in KIdx, j \in KIdx, form \in Forms \ {"plain"} }
@@ -205,7 +223,8 @@ OnlyKind(cx) ==
     CASE cx \in {"if", "while", "whilelater", "whilecontinue", "elseif"} -> {"bool"}
       [] cx \in {"emptyobjdecl", "emptyobjassign", "emptyobjparam", "emptyobjnested", "emptyobjfor", "objdestruct", "restobj"} -> {"object"}
       [] cx \in {"emptylistdecl", "emptylistassign", "emptylistparam", "emptylistnested", "listdestruct", "restlist"} -> {"list"}
-      [] cx \in {"idxassignidx", "opassignidx", "rangeassignstart", "rangeassignend", "listidx", "stridx"} -> {"int"}
+      [] cx \in {"idxassignidx", "opassignidx", "rangeassignstart", "rangeassignend", "listidx", "stridx",
+                 "rangeassignendfar", "rangeassignstartfar", "ridxendfar", "ridxstartfar", "rangeendrev"} -> {"int"}
       [] cx \in {"objassignkey", "objidx", "keyname", "slot", "destructkey"} -> {"string"}
       [] OTHER -> {}
 CtxRule ==
